@@ -697,6 +697,10 @@ func (m *Model) Pull(name string, max int, now time.Time, resp []*pubsubpb.Recei
 				// implementation's own comparison decides there)
 				dpSettled := dp != nil && (dp.State == Acked || dp.State == DLd || m.expiry(dp, now) >= 0)
 				sig["revived_predecessor"] = by != nil && by.Seek && dp != by && dpSettled
+				// the same link-to-the-previous-delivery-only design shows without
+				// a seek when retention was changed between publishes: the direct
+				// predecessor expires before an older same-key message does (F12b)
+				sig["expired_direct_predecessor"] = by != nil && !by.Seek && dp != nil && dp != by && dp.State != Acked && dp.State != DLd && m.expiry(dp, now) >= 0
 				viols = append(viols, Viol{Prop: c.prop, Rule: "must-not/" + c.reason, Sig: sig, Detail: fmt.Sprintf("Pull(%s) at +%v returned message #%d (key %q) while earlier message #%d with the same key is still outstanding (attempts %d, state %s)", name, now.Sub(epoch), d.Msg.Idx, d.Msg.Spec.Key, by.Msg.Idx, by.N, by.State)})
 			} else {
 				var also []string
